@@ -111,6 +111,19 @@ where
                     // single-unit types always report their unit; multi-unit types the stored one
                     rep.violation("C10/unit-accessor", mk_case("unit"), format!("{:?}", qa.unit()), format!("{:?}", uu));
                 }
+                // a value compared with ITSELF (one object on both sides) is compared like any two values
+                if same_unit && amt::same(a, bb) {
+                    rep.count("transitions", 3);
+                    #[allow(clippy::eq_op)]
+                    let own = guard(|| (qa == qa, qa != qa, PartialOrd::partial_cmp(&qa, &qa), <Q as Quantity>::eq(&qa, &qa)));
+                    #[allow(clippy::eq_op)]
+                    let want = (a == a, a != a, PartialOrd::partial_cmp(&a, &a), a == a);
+                    match own {
+                        Ok(got) if got == want => rep.inc("self_comparisons"),
+                        Ok(got) => rep.violation("C10/equality/same-object", mk_case("q == q"), format!("{:?}", got), format!("{:?}", want)),
+                        Err(p) => rep.violation("C10/panic", mk_case("q == q"), format!("panic: {p}"), format!("{:?}", want)),
+                    }
+                }
                 // comparisons
                 rep.count("transitions", 4);
                 let cmp = guard(|| (qa == qb, qa != qb, PartialOrd::partial_cmp(&qa, &qb), qa < qb));
